@@ -9,16 +9,18 @@ PID = "C09"
 MANIFEST = {
     "text": "Coq theorems over a document model of formatter.rs and of both statement drivers, for all ASTs, widths, "
             "indentations and all expr_to_source oracles: every comment of the commented AST is accounted for in order "
-            "by every layout (shown, or under an expression printed through expr_to_source), both drivers account for "
-            "all statement-level comments (library loop and blots --format loop), "
-            "no layout merges a comment into code, a lexer-level scan of the rendered text recovers the shown comments; model tied to the code by the "
+            "by every layout (shown, or under an expression printed through expr_to_source — and since ff5578e no "
+            "comment-carrying expression is printed that way), both drivers account for all statement-level comments "
+            "(library loop and blots --format loop), no layout merges a comment into code, a lexer-level scan of the "
+            "rendered text recovers the shown comments (chain: scan of the emitted text = comments of the program); "
+            "model tied to the code by the "
             "FORMAT correspondence (text equality incl. formatter output re-formatted and the real blots --format "
             "binary) and the comment-sequence oracle searched on the implementation over generated programs with "
             "comments at every position class the grammar admits",
     "note": "trusted: Coq kernel + vm_compute; hand transcription of formatter.rs / format_blots loop / --format loop "
             "(validated by the FORMAT correspondence on every run); pest parser and pairs_to_expr_with_comments are "
-            "NOT modelled (the parser half is tested on the implementation only; comments swallowed by NEWLINE are "
-            "known finding F20); blots-wasm is not built natively, its loop is mirrored in harness/src/s_c0809.rs; "
+            "NOT modelled (the parser half is tested on the implementation only; comments swallowed by NEWLINE (F20) and "
+            "comments in item-less lists/records are open known findings); blots-wasm is not built natively, its loop is mirrored in harness/src/s_c0809.rs; "
             "no axioms",
     "design_ref": "DESIGN.md section 6 C09; notes/C09.md",
 }
